@@ -32,21 +32,26 @@ type IndepObj struct {
 // IndepCase is a document encrypted by internal/indep/crypt and serialised
 // by internal/indep/serial, which the library must read.
 type IndepCase struct {
-	R          int        `json:"r"`        // 2, 3, 4, 6
-	KeyBits    int        `json:"key_bits"` // 40..128 (R3), 128 (R4), 256 (R6)
-	RC4inV4    bool       `json:"rc4_in_v4,omitempty"`
-	UserPW     string     `json:"user_pw"`
-	OwnerPW    string     `json:"owner_pw"`
-	P          int32      `json:"p"`
-	EncMeta    bool       `json:"encrypt_metadata"`
-	ID0        gen.Hex    `json:"id0"`
-	XRefStream bool       `json:"xref_stream,omitempty"`
-	EncIndirect bool      `json:"encrypt_indirect,omitempty"` // /Encrypt is an indirect object
-	CFLength   int        `json:"cf_length,omitempty"`        // 0 = absent, else bytes
-	Objs       []IndepObj `json:"objs"`
-	UPadSeed   uint64     `json:"u_pad_seed,omitempty"` // R3/R4: non-zero = arbitrary bytes in /U[16:32]
-	RndSeed    uint64     `json:"rnd_seed"`
-	RenderSeed uint64     `json:"render_seed"` // 0 = canonical rendering
+	R       int  `json:"r"`        // 2, 3, 4, 6
+	KeyBits int  `json:"key_bits"` // 40..128 (R3), 128 (R4), 256 (R6)
+	RC4inV4 bool `json:"rc4_in_v4,omitempty"`
+	// StrIdentity / StmIdentity (V >= 4): the crypt filter selected for
+	// strings / for streams is Identity, i.e. those stay in clear (ISO 32000
+	// 7.6.5: the two selectors are independent).
+	StrIdentity bool       `json:"str_identity,omitempty"`
+	StmIdentity bool       `json:"stm_identity,omitempty"`
+	UserPW      string     `json:"user_pw"`
+	OwnerPW     string     `json:"owner_pw"`
+	P           int32      `json:"p"`
+	EncMeta     bool       `json:"encrypt_metadata"`
+	ID0         gen.Hex    `json:"id0"`
+	XRefStream  bool       `json:"xref_stream,omitempty"`
+	EncIndirect bool       `json:"encrypt_indirect,omitempty"` // /Encrypt is an indirect object
+	CFLength    int        `json:"cf_length,omitempty"`        // 0 = absent, else bytes
+	Objs        []IndepObj `json:"objs"`
+	UPadSeed    uint64     `json:"u_pad_seed,omitempty"` // R3/R4: non-zero = arbitrary bytes in /U[16:32]
+	RndSeed     uint64     `json:"rnd_seed"`
+	RenderSeed  uint64     `json:"render_seed"` // 0 = canonical rendering
 
 	fileLen int
 }
@@ -118,7 +123,7 @@ func encDictValue(d *crypt.EncryptDict, cfLength int) syntax.Value {
 		if cfLength > 0 {
 			cf = append(cf, "Length", syntax.I(int64(cfLength)))
 		}
-		kv = append(kv, "CF", syntax.D("StdCF", syntax.D(cf...)), "StmF", syntax.N("StdCF"), "StrF", syntax.N("StdCF"))
+		kv = append(kv, "CF", syntax.D("StdCF", syntax.D(cf...)), "StmF", syntax.N(d.StmF), "StrF", syntax.N(d.StrF))
 	}
 	return syntax.D(kv...)
 }
@@ -139,6 +144,14 @@ func checkIndep(c *IndepCase) error {
 	}
 	if c.RC4inV4 && c.R == 4 {
 		d.CFM["StdCF"] = "V2"
+	}
+	if d.V >= 4 {
+		if c.StrIdentity {
+			d.StrF = "Identity"
+		}
+		if c.StmIdentity {
+			d.StmF = "Identity"
+		}
 	}
 	if (c.R == 3 || c.R == 4) && c.UPadSeed != 0 {
 		// Algorithm 5 (f): the last 16 bytes of /U are arbitrary padding and
@@ -306,6 +319,14 @@ var indepProp = &vt.Prop[IndepCase]{
 			c.KeyBits = 256
 			c.CFLength = rapid.SampledFrom([]int{0, 32}).Draw(t, "cflen")
 		}
+		if c.R >= 4 {
+			switch rapid.IntRange(0, 7).Draw(t, "selectors") {
+			case 0:
+				c.StrIdentity = true
+			case 1:
+				c.StmIdentity = true
+			}
+		}
 		c.UserPW = rapid.SampledFrom(pwChoices).Draw(t, "upw")
 		c.OwnerPW = rapid.SampledFrom(pwChoices[1:]).Draw(t, "opw")
 		c.P = rapid.SampledFrom([]int32{-4, -3904, -1340, -44}).Draw(t, "P")
@@ -358,6 +379,12 @@ var indepProp = &vt.Prop[IndepCase]{
 		cls := []string{fmt.Sprintf("R%d", c.R), fmt.Sprintf("bits=%d", c.KeyBits)}
 		if c.RC4inV4 {
 			cls = append(cls, "V4-with-RC4")
+		}
+		if c.StrIdentity {
+			cls = append(cls, "selectors/StmF=StdCF,StrF=Identity")
+		}
+		if c.StmIdentity {
+			cls = append(cls, "selectors/StmF=Identity,StrF=StdCF")
 		}
 		if c.XRefStream {
 			cls = append(cls, "xref-stream")
